@@ -16,12 +16,14 @@ type verifDump struct {
 	attrs []string
 	aints []int32 // values of the int32 attributes, in listing order
 	errs  int
-	// partial reads, three fixed selections per dataset (rank 1: [1..2], [2..7]; rank 2: rows 0, columns 1..2);
+	// partial reads, four fixed selections per dataset (rank 1: [0], [1..2], [2..7]; rank 2: row 0, columns 1..2);
 	// nil where the selection was refused or failed
 	slices [][]float64
 	// per call: what each Read / attribute listing returned for each path (absent when the call failed)
 	perVals  map[string][]float64
 	perAttrs map[string][]string
+	perStrs  map[string][]string // ReadStrings per path
+	perRecs  map[string]int      // number of records ReadCompound returned per path
 }
 
 // every call that succeeds on the cut file returns what the same call returns on the intact file
@@ -36,6 +38,23 @@ func verifComparePerCall(cut, intact verifDump) {
 			for i := range l {
 				vrt.Assert(l[i] == w[i], "attributes-silently-missing")
 			}
+		}
+	}
+	for p, l := range cut.perStrs {
+		w, ok := intact.perStrs[p]
+		if !ok {
+			continue
+		}
+		vrt.Assert(len(l) == len(w), "different-values-after-truncation")
+		if len(l) == len(w) {
+			for i := range l {
+				vrt.Assert(l[i] == w[i], "different-values-after-truncation")
+			}
+		}
+	}
+	for p, n := range cut.perRecs {
+		if w, ok := intact.perRecs[p]; ok {
+			vrt.Assert(n == w, "different-values-after-truncation")
 		}
 	}
 	for p, v := range cut.perVals {
@@ -86,6 +105,7 @@ func verifDumpFile(name string) (d verifDump, openErr error) {
 		return d, err
 	}
 	d.perVals, d.perAttrs = map[string][]float64{}, map[string][]string{}
+	d.perStrs, d.perRecs = map[string][]string{}, map[string]int{}
 	f.Walk(func(p string, obj Object) {
 		d.paths = append(d.paths, p)
 		if g, ok := obj.(*Group); ok {
@@ -105,7 +125,14 @@ func verifDumpFile(name string) (d verifDump, openErr error) {
 				d.vals = append(d.vals, v...)
 				d.perVals[p] = v
 			}
+			if ss, err := ds.ReadStrings(); err == nil {
+				d.perStrs[p] = ss
+			}
+			if rs, err := ds.ReadCompound(); err == nil {
+				d.perRecs[p] = len(rs)
+			}
 			d.slices = append(d.slices,
+				verifSliceOf(ds, []uint64{0}, []uint64{1}),
 				verifSliceOf(ds, []uint64{1}, []uint64{2}),
 				verifSliceOf(ds, []uint64{2}, []uint64{6}),
 				verifSliceOf(ds, []uint64{0, 1}, []uint64{1, 2}))
@@ -175,6 +202,7 @@ func verifTruncateScriptOpt(ver uint8, lo, hi int, chunked bool) {
 	}
 	// no error from Open: everything returned without error must equal the intact answer
 	vrt.Assert(len(cut.paths) == len(intact.paths) || cut.errs > 0, "members-silently-missing")
+	verifComparePerCall(cut, intact)
 	if cut.errs == 0 {
 		vrt.Assert(len(cut.vals) == len(intact.vals), "values-silently-missing")
 		if len(cut.vals) == len(intact.vals) {
@@ -253,6 +281,7 @@ func VerifH_C17_api_truncate_dense() {
 		return
 	}
 	vrt.Assert(len(cut.paths) == len(intact.paths) || cut.errs > 0, "members-silently-missing")
+	verifComparePerCall(cut, intact)
 	if cut.errs == 0 {
 		vrt.Assert(len(cut.attrs) == len(intact.attrs), "attributes-silently-missing")
 		if len(cut.aints) == len(intact.aints) {
@@ -311,6 +340,7 @@ func verifCorpusCut(rel string, sym, span int) {
 		return
 	}
 	vrt.Assert(len(cut.paths) == len(intact.paths) || cut.errs > 0, "members-silently-missing")
+	verifComparePerCall(cut, intact)
 	if len(cut.paths) == len(intact.paths) {
 		verifCompareSlices(cut, intact)
 	}
@@ -352,6 +382,7 @@ func VerifH_C17_api_truncate_dense_tail() {
 		return
 	}
 	vrt.Assert(len(cut.paths) == len(intact.paths) || cut.errs > 0, "members-silently-missing")
+	verifComparePerCall(cut, intact)
 	if cut.errs == 0 {
 		vrt.Assert(len(cut.attrs) == len(intact.attrs), "attributes-silently-missing")
 		if len(cut.aints) == len(intact.aints) {
@@ -411,4 +442,17 @@ func VerifH_C17_api_corpus_sweep_test_attributes_thorough() {
 }
 func VerifH_C17_api_corpus_sweep_with_attributes_thorough() {
 	verifCorpusSweep("testdata/with_attributes.h5", 6000, 8864)
+}
+
+func VerifH_C17_api_corpus_sweep_strings_thorough() {
+	verifCorpusSweep("testdata/string_test.h5", 1, 1<<30)
+}
+func VerifH_C17_api_corpus_sweep_compound_thorough() {
+	verifCorpusSweep("testdata/compound_test.h5", 1, 1<<30)
+}
+func VerifH_C17_api_corpus_sweep_chunked3d_thorough() {
+	verifCorpusSweep("testdata/test_3d_chunked.h5", 1, 1<<30)
+}
+func VerifH_C17_api_corpus_sweep_types_thorough() {
+	verifCorpusSweep("testdata/various_types.h5", 1, 1<<30)
 }
